@@ -112,6 +112,7 @@ def main(tier, seed):
     tsmlib.run_mc(chk, "3x3_w2_f111", C(3, 3, maxdrop=1, maxdup=1, maxdelay=1), extra_invs=one)
     tsmlib.run_mc(chk, "2x4_w3_d2", C(2, 4, pwc=3, pws=3, maxdrop=2, maxdup=1), extra_invs=one)
     tsmlib.run_mc(chk, "1x3_w1", C(1, 3, pwc=1, pws=1, maxdrop=1, maxdup=1, maxdelay=1), extra_invs=one)
+    tsmlib.run_mc(chk, "5x1_w2_d1", C(5, 1, pwc=2, pws=2, maxdrop=1), extra_invs=one)      # whole request repeated after a lost reply
     # a peer that shrinks the window it grants in the middle of a transfer (WindowRespectsAck)
     tsmlib.run_mc(chk, "1x5_w4_shrink", C(1, 5, pwc=4, pws=4, maxshrink=1, maxdrop=1), extra_invs=one)
     tsmlib.run_mc(chk, "5x1_w4_shrink", C(5, 1, pwc=4, pws=4, maxshrink=1, maxdup=1), extra_invs=one)
@@ -167,6 +168,15 @@ def main(tier, seed):
         for t in single_fault_traces(rc):
             traces.append(t)
             chk.case(("sf2", seg, nq, nr, tuple(t["faults"].items()), t["order"]), nontrivial=True)
+    # (ii'') a long segmented request whose short reply is lost (or comes after the APDU timeout): the whole request is
+    # repeated from segment 0 -- more segments than one window + 1, so that a window position left over from the first
+    # attempt matters
+    for nq, nr, w, delay in ([(5, 1, 2, 0), (4, 0, 1, 0), (6, 1, 3, 0), (9, 1, 4, 0), (5, 1, 2, 7000), (7, 0, 3, 7000)] if thorough
+                             else [(5, 1, 2, 0), (4, 0, 1, 0), (6, 1, 3, 0), (5, 1, 2, 7000)]):
+        rc = tsmlib.rig_cfg(seg=50, nq=nq, nr=nr, pwc=w, pws=w, app_delay=delay, retries=2 if delay else 1)
+        for t in (single_fault_traces(rc, kinds=("drop", "delay"), orders=("fifo",)) if not delay else [tsmlib.record(rc)]):
+            traces.append(t)
+            chk.case(("repeat", nq, nr, w, delay, tuple(t["faults"].items())), nontrivial=True)
     # (ii') a peer that shrinks the granted window in the middle of a longer transfer: later bursts must respect the newest grant
     for nq, nr, w in ([(9, 1, 4), (1, 9, 4), (10, 10, 3), (12, 1, 8)] if thorough else [(9, 1, 4), (1, 9, 4)]):
         rc = tsmlib.rig_cfg(seg=50, nq=nq, nr=nr, pwc=w, pws=w, maxsegs=None)
@@ -183,6 +193,8 @@ def main(tier, seed):
         t = tsmlib.record(rc, limit=20000)
         traces.append(t)
         chk.case(("long", nq, nr, w), nontrivial=True)
+        if t["hang"] or tsmlib.HANGS[0] >= 3:
+            continue
         nfr = len(t["frames"])
         around = [i for i in range(1, nfr + 1) if t["frames"][i - 1]["seq"] in (255, 0, 1) and t["frames"][i - 1]["k"] in ("CR", "CA", "ACK")]
         for i in (around[:6] if not thorough else around[:20]):
@@ -191,6 +203,8 @@ def main(tier, seed):
                 chk.case(("longf", nq, nr, w, i, kind), nontrivial=True)
     # (iv) random multi-fault sequences
     for n in range(600 if thorough else 80):
+        if tsmlib.HANGS[0] >= 3:
+            break
         seg = rng.choice(SIZES[:3])
         rc = tsmlib.rig_cfg(seg=seg, nq=rng.randint(1, 6), nr=rng.randint(0, 6), pwc=rng.randint(1, 8), pws=rng.randint(1, 8),
                             retries=rng.randint(0, 3))
